@@ -390,6 +390,12 @@ def type_test_value(P, func, cond_ast, msg_param):
     if isinstance(cond_ast, ast.Compare) and len(cond_ast.ops) == 1 and isinstance(cond_ast.ops[0], ast.Eq):
         l, r = cond_ast.left, cond_ast.comparators[0]
         for a, b in ((l, r), (r, l)):
+            if isinstance(a, ast.Name) and a.id != msg_param:
+                # a local the type was hoisted into: `msgType = message['type']`
+                from .util import single_assign_value
+                v = single_assign_value(func, a.id)
+                if v is not None:
+                    a = v
             if isinstance(a, ast.Subscript) and isinstance(a.value, ast.Name) and a.value.id == msg_param \
                     and isinstance(a.slice, ast.Constant) and a.slice.value == 'type' \
                     and isinstance(b, ast.Constant) and isinstance(b.value, str):
